@@ -73,9 +73,10 @@ const (
 	classNegCount  = "thrift-negative-count-not-rejected"
 	classAlloc     = "thrift-wire-size-allocation"
 	classSkipBool  = "thrift-compact-skip-bool-field"
+	classMissingID = "thrift-missingfield-wrong-id"
 )
 
-var allClasses = []string{classWideIDs, classShortRead, classNegCount, classAlloc, classSkipBool}
+var allClasses = []string{classWideIDs, classShortRead, classNegCount, classAlloc, classSkipBool, classMissingID}
 
 const allocLimit = 64 << 20
 const inputLimit = 4 << 10
@@ -785,7 +786,7 @@ func (e *engine) target() {
 					return &evid.Failure{Oracle: fmt.Sprintf("an encoding lacking required field %d is reported as *thrift.MissingField", id), Observed: fmt.Sprintf("%T %v", err, err), Expected: "errors.As(err, **thrift.MissingField)", Class: "missing-not-reported"}
 				}
 				if mf.Field.ID != id {
-					e.label("missing.reported-id-differs(not asserted)")
+					return &evid.Failure{Oracle: fmt.Sprintf("the *thrift.MissingField for an encoding lacking required field %d names that field", id), Observed: fmt.Sprintf("MissingField{Field: %v}", mf.Field), Expected: fmt.Sprintf("field id %d", id), Class: "missing-wrong-id"}
 				}
 				return nil
 			}})
@@ -968,6 +969,11 @@ func knownClass(c *Case, pi *ProbeInfo, f *evid.Failure) string {
 	case f.Class == "hostile-size-accepted" && shortReadPossible(c):
 		// a count whose elements are fixed-width reads: at the end of the input every read "succeeds"
 		return classShortRead
+	case f.Class == "stall" && shortReadPossible(c):
+		// every fixed-width read "succeeds" at the end of the input: a loop over a wire count of 2^31
+		return classShortRead
+	case pi.Group == "missing" && f.Class == "missing-wrong-id":
+		return classMissingID
 	case pi.Group == "insert" && (f.Class == "insert-error" || f.Class == "insert-mismatch") && c.P%3 == 2 && strings.Contains(pi.Mut, "[bool field inside]"):
 		return classSkipBool
 	}
@@ -1138,13 +1144,14 @@ func caseLabels(c Case) {
 func TestDecode(t *testing.T) {
 	defer stopWorker()
 	known := activeKnown()
-	o := &tgen.Opts{Small: true, EnumI32Only: true, NoWideIDs: evid.KnownActive(classWideIDs)}
+	o := &tgen.Opts{Small: true, NoWideIDs: evid.KnownActive(classWideIDs)}
 	// While the allocation / short-read defects are listed every few cases cost
 	// a worker restart or a stall; on a tree without them a case takes ~0.2 ms.
-	n := 6000
+	n := 12000
 	if evid.KnownActive(classAlloc) || evid.KnownActive(classShortRead) {
 		n = 500
 	}
+	cases := 0
 	evid.Check(t, "Decode", n, func(rt *rapid.T) {
 		before := o.Avoided["id-range-beyond-bitmap"]
 		c := genCase(rt, o)
@@ -1153,6 +1160,9 @@ func TestDecode(t *testing.T) {
 		}
 		caseLabels(c)
 		evid.Sample(c)
+		if cases++; cases%4000 == 0 {
+			stopWorker() // fresh worker: the library's codec cache is copy-on-write (quadratic in the number of types)
+		}
 		evid.Journal("Decode", c)
 		out := runCase(c, known)
 		evid.JournalClear()
@@ -1213,6 +1223,9 @@ var witnessCases = map[string]Case{
 	classNegCount: {Kind: "target", P: 0, T: listOfI64, V: &tgen.Recipe{E: []tgen.Recipe{{E: []tgen.Recipe{{I: 1}}}}}},
 	// same value, compact, list size rewritten to 2^24 / 2^31-1
 	classAlloc: {Kind: "target", P: 2, T: listOfI64, V: &tgen.Recipe{E: []tgen.Recipe{{E: []tgen.Recipe{{I: 1}}}}}},
+	// struct{A int32 `thrift:"1"`; B int32 `thrift:"2,required"`}{1, 2} with field 2 removed from the encoding
+	classMissingID: {Kind: "target", P: 0, T: &tgen.TypeDesc{K: tgen.KStruct, Fields: []tgen.FieldDesc{{ID: 1, T: tgen.TypeDesc{K: tgen.KI32}}, {ID: 2, Req: true, T: tgen.TypeDesc{K: tgen.KI32}}}},
+		V: &tgen.Recipe{E: []tgen.Recipe{{I: 1}, {I: 2}}}},
 	// struct{A int32 `thrift:"1"`}{1}, compact, with an undeclared bool field 2 inserted
 	classSkipBool: {Kind: "target", P: 2, T: i32Struct(1), V: &tgen.Recipe{E: []tgen.Recipe{{I: 1}}},
 		Unknown: []thriftspec.Field{{ID: 2, V: thriftspec.Value{T: thriftspec.Bool, B: true}}}},
